@@ -24,6 +24,41 @@ theorem src_hull_loop_shape :
     TradeoffSrc.hullMinLen = 2 ∧ TradeoffSrc.hullR1Back = 1 ∧ TradeoffSrc.hullR0Back = 2 ∧
     TradeoffSrc.hullPopsLast = true := by decide
 
+/-- **bridge (the `while` loop)**: the loop computed WITH the lifted shape (`popWhileSrc`: minimal length
+    `TradeoffSrc.hullMinLen`, `r1` / `r0` read `hullR1Back` / `hullR0Back` entries from the end, `pop` at the end
+    `hullPopsLast`, turn test `hullDrop`) never raises `IndexError`, never runs out of its `len + 1` fuel, and returns what the
+    structural recursion `popWhile` returns.  An edit of the loop shape in the source changes the generated values and
+    breaks THIS theorem. -/
+theorem popWhileSrc_eq (r2 : Pt) : ∀ (fuel : Nat) (st : List Pt), st.length < fuel →
+    popWhileSrc r2 fuel st = some (popWhile r2 st)
+  | 0, st, h => by omega
+  | fuel + 1, [], _ => by simp [popWhileSrc, popWhile, TradeoffSrc.hullMinLen]
+  | fuel + 1, [a], _ => by simp [popWhileSrc, popWhile, TradeoffSrc.hullMinLen]
+  | fuel + 1, r1 :: r0 :: rest, h => by
+    have ih := popWhileSrc_eq r2 fuel (r0 :: rest) (by simp only [List.length_cons] at h ⊢; omega)
+    simp only [popWhileSrc, popWhile, TradeoffSrc.hullMinLen, stackBack, TradeoffSrc.hullR1Back,
+      TradeoffSrc.hullR0Back, stackPop, TradeoffSrc.hullPopsLast, List.length_cons]
+    by_cases hd : dropTest r0 r1 r2 = true
+    · simp [hd, ih]
+    · simp [hd]
+
+theorem hullStepSrc_eq (sel : List Pt) (r2 : Pt) : hullStepSrc sel r2 = some (hullStep sel r2) := by
+  simp [hullStepSrc, hullStep, popWhileSrc_eq r2 (sel.length + 1) sel (Nat.lt_succ_self _)]
+
+theorem foldlM_hullStepSrc_eq (pts : List Pt) : ∀ sel : List Pt,
+    pts.foldlM hullStepSrc sel = some (pts.foldl hullStep sel) := by
+  induction pts with
+  | nil => intro sel; rfl
+  | cons p ps ih => intro sel; simp [List.foldlM_cons, hullStepSrc_eq, ih]
+
+/-- **bridge (`_filter_points_to_get_convex_hull`)**: for the loop shape lifted from the source the function returns (no
+    `IndexError`) Andrew's monotone chain `(hullRev pts).reverse`, the function all hull invariants are proved about -/
+theorem hullSrc_eq (pts : List Pt) : hullSrc pts = some (hullRev pts).reverse := by
+  simp [hullSrc, hullRev, foldlM_hullStepSrc_eq]
+
+theorem upperHull_eq (pts : List Pt) : upperHull pts = (hullRev pts).reverse := by
+  simp [upperHull, hullSrc_eq]
+
 /-! ### sorting -/
 
 theorem src_scoreBefore (y r : Row) : scoreBefore y r = true ↔ y.score < r.score := by
@@ -46,6 +81,39 @@ theorem src_midThreshold (t s : Rat) : TradeoffSrc.midThreshold t s = (t + s) / 
 theorem src_counts (len sum : Rat) :
     TradeoffSrc.degenerateGuardIsOr = true ∧ TradeoffSrc.countN len sum = len ∧
     TradeoffSrc.countPos len sum = sum ∧ TradeoffSrc.countNeg len sum = len - sum := ⟨rfl, rfl, rfl, rfl⟩
+
+theorem nPos_add_nNeg (rows : List Row) : nPos rows + nNeg rows = rows.length := by
+  induction rows with
+  | nil => rfl
+  | cons r rs ih =>
+    cases h : r.label <;> simp [nPos, nNeg, h] at ih ⊢ <;> omega
+
+/-- **bridge (`_get_counts`)**: the lifted count expressions, evaluated on `len(labels)` and `sum(labels)` of 0/1 labels,
+    are the number of rows, of positive rows and of negative rows -/
+theorem srcCounts_eq (rows : List Row) :
+    srcCounts rows = ((rows.length : Rat), (nPos rows : Rat), (nNeg rows : Rat)) := by
+  have h := nPos_add_nNeg rows
+  have hq : (rows.length : Rat) = (nPos rows : Rat) + (nNeg rows : Rat) := by exact_mod_cast h.symm
+  simp only [srcCounts, TradeoffSrc.countN, TradeoffSrc.countPos, TradeoffSrc.countNeg, Prod.mk.injEq, true_and]
+  rw [hq]; ring
+
+theorem rawPoints_eq (flip : Bool) (xm ym : ThresholdGen.Metric) (rows : List Row) :
+    rawPoints flip xm ym rows =
+      (sweepSteps rows).flatMap (stepPoints (operations flip) xm ym (nNeg rows) (nPos rows)) := by
+  simp only [rawPoints, srcCounts_eq]
+
+/-- **bridge (the "Degenerate labels" guard)**: with the lifted connective and the lifted counts the guard fires iff the
+    group has no positive or no negative row -/
+theorem src_degenerate (rows : List Row) : degenerate rows = true ↔ (nPos rows = 0 ∨ nNeg rows = 0) := by
+  simp [degenerate, srcCounts_eq, TradeoffSrc.degenerateGuardIsOr]
+
+theorem tradeoffPoints_eq (flip : Bool) (xm ym : ThresholdGen.Metric) (rows : List Row) :
+    tradeoffPoints flip xm ym rows =
+      if nPos rows = 0 ∨ nNeg rows = 0 then none else some (sortLex (rawPoints flip xm ym rows)) := by
+  unfold tradeoffPoints
+  by_cases h : nPos rows = 0 ∨ nNeg rows = 0
+  · rw [if_pos h, if_pos ((src_degenerate rows).mpr h)]
+  · rw [if_neg h, if_neg (fun hd => h ((src_degenerate rows).mp hd))]
 
 /-! ### `_get_interpolation_indices` / `_interpolate_curve` -/
 
@@ -113,6 +181,75 @@ theorem src_pIgnore (r : Interp) (yBest : Rat) :
 /-- the best grid index is `idxmax` (first maximum, `argmaxFirst`); `n_negative = n - n_positive` -/
 theorem src_fit_misc (n npos : Rat) :
     ThresholdFitSrc.bestIsIdxmax = true ∧ ThresholdFitSrc.eoNNeg n npos = n - npos := ⟨rfl, rfl⟩
+
+/-- **bridge (`idxmax`)**: the lifted extremum of both methods is the FIRST MAXIMUM (`argmaxFirst`, see
+    `argmaxFirst_spec` / `argmaxFirst_first`) -/
+theorem bestIndexSimple_eq (l : List Rat) : bestIndexSimple l = argmaxFirst l := rfl
+theorem bestIndexEO_eq (l : List Rat) : bestIndexEO l = argmaxFirst l := rfl
+
+/-- **bridge (`np.amin(y_values, axis=1)`)**: the lifted reduction over the groups is the minimum -/
+theorem yReduce_eq (l : List Rat) : yReduce l = minList l := rfl
+
+/-- **assumption made explicit**: `np.around(., aroundDecimals)` is the identity on the exact model (the rounding of the float
+    objective to 15 decimals is NOT modelled; the correspondence follows the implementation's pick among near-ties) -/
+theorem aroundModel_eq (d : Nat) (v : Rat) : aroundModel d v = v := rfl
+
+/-- **bridge (`prediction_constant=self._x_best`)** -/
+theorem src_predictionConstant (xbest ybest : Rat) : ThresholdFitSrc.predictionConstant xbest ybest = xbest := rfl
+
+theorem totalRows_eq (groups : List (List Row)) : totalRows groups = totalPos groups + totalNeg groups := by
+  induction groups with
+  | nil => rfl
+  | cons g gs ih =>
+    have h := nPos_add_nNeg g
+    simp only [totalRows, totalPos, totalNeg, List.map_cons, List.sum_cons] at ih ⊢
+    omega
+
+/-- **bridge (`n_negative = n - n_positive`)**: the lifted expression is the number of negative rows of all groups -/
+theorem eoNegatives_eq (groups : List (List Row)) : eoNegatives groups = (totalNeg groups : Rat) := by
+  simp only [eoNegatives, ThresholdFitSrc.eoNNeg, totalRows_eq]
+  push_cast; ring
+
+theorem objEO_eq (obj : ThresholdGen.Metric) (groups : List (List Row)) (x y : Rat) :
+    objEO obj groups x y = obj.eval (ThresholdGen.eoCounts (totalNeg groups) (totalPos groups) x y) := by
+  simp only [objEO, eoNegatives_eq]
+
+/-- **bridge (`_threshold_optimization_for_simple_constraints`)**: the fit computed with the lifted `idxmax` is the fit
+    with the first maximum -/
+theorem fitSimple_eq (flip : Bool) (xm ym : ThresholdGen.Metric) (N : Nat) (groups : List (List Row)) (force : Option Nat) :
+    fitSimple flip xm ym N groups force =
+      (match hullsOf flip xm ym groups with
+       | none => none
+       | some hulls =>
+         match curves hulls N with
+         | none => none
+         | some cs =>
+           let objs := cs.map (objSimple groups)
+           let iBest := force.getD (argmaxFirst objs)
+           match cs[iBest]?, objs[iBest]? with
+           | some best, some o => some ⟨iBest, o, best, best.map simpleRule⟩
+           | _, _ => none) := rfl
+
+/-- **bridge (`_threshold_optimization_for_equalized_odds`)**: the fit computed with the lifted reduction (`np.amin`), the
+    identity rounding, the lifted `idxmax` and the lifted `prediction_constant` is the fit with the pointwise minimum, the
+    exact first maximum and `prediction_constant = x_best` -/
+theorem fitEO_eq (flip : Bool) (obj : ThresholdGen.Metric) (N : Nat) (groups : List (List Row)) (force : Option Nat) :
+    fitEO flip obj N groups force =
+      (match hullsOf flip ThresholdGen.eoXMetric ThresholdGen.eoYMetric groups with
+       | none => none
+       | some hulls =>
+         match curves hulls N with
+         | none => none
+         | some cs =>
+           match allSome (cs.map (fun is => minList (is.map (·.y)))) with
+           | none => none
+           | some ymins =>
+             let objs := (List.range (N + 1)).zipWith (fun i y => objEO obj groups (gridVal N i) y) ymins
+             let iBest := force.getD (argmaxFirst objs)
+             match cs[iBest]?, objs[iBest]?, ymins[iBest]? with
+             | some best, some o, some yBest =>
+               some (⟨iBest, o, best, best.map (eoRule (gridVal N iBest) yBest)⟩, yBest)
+             | _, _, _ => none) := rfl
 
 /-! ### the predict path (`Generated/ThresholderSrc.lean`) -/
 
